@@ -103,9 +103,9 @@ TimeOut ==
     /\ outcome' = "timeout"
     /\ UNCHANGED <<caseRand, ntx, open, hist, acc>>
 
-\* any other local failure (socket error ...)
+\* a local failure before anything was examined (no socket, send failed ...)
 Error ==
-    /\ outcome = "listening"
+    /\ outcome = "listening" /\ \A t \in Tx : Examined(t) = 0
     /\ outcome' = "error"
     /\ UNCHANGED <<caseRand, ntx, open, hist, acc>>
 
@@ -145,8 +145,18 @@ C16_EndsOtherwise    == outcome # "accepted" => acc = None
 C16_OutcomeAllowed ==
     /\ outcome = "accepted" =>
          Out("accept", acc.pos, acc.pos) \in Allowed(hist[acc.t], caseRand)
-    /\ outcome \in {"error", "timeout"} =>
-         \A t \in 1..ntx : Out(outcome, Examined(t), 0) \in Allowed(hist[t], caseRand)
+    /\ outcome = "timeout" =>
+         \A t \in 1..ntx : Out("timeout", Examined(t), 0) \in Allowed(hist[t], caseRand)
+    /\ outcome = "error" =>
+         \E t \in 1..ntx : Out("error", Examined(t), 0) \in Allowed(hist[t], caseRand)
+
+\* "other datagrams are skipped": a datagram that did not come from the queried address and port
+\* never ends the query -- an error is owed to a datagram from the server, to the cap, or to
+\* nothing that was received at all
+C16_ForeignIgnored ==
+    outcome = "error" =>
+        \/ \A t \in 1..ntx : Examined(t) = 0
+        \/ \E t \in 1..ntx : Examined(t) = Cap \/ (Examined(t) > 0 /\ FromServer(hist[t][Examined(t)]))
 
 \* sanity of the machine (not a requirement of the property): a finished query stays finished
 Sanity_Final == [][outcome # "listening" => UNCHANGED vars]_vars
